@@ -39,9 +39,10 @@ def ajob(name, al, am, fsz, rlen, ops, timeout, **kw):
     """scalar alignment-adaptor job: ops is a tuple of 1 or 2 operation codes (0 pread, 1 pwrite)"""
     cap = (fsz - 1 + len(ops) * rlen + 3) // 4 * 4
     D = ['ALIGN=%d' % al, 'AMEM=%d' % am, 'FSZ=%d' % fsz, 'RLEN=%d' % rlen, 'NOPS=%d' % len(ops)] + ['OP%d=%d' % (i + 1, o) for i, o in enumerate(ops)]
-    extra = dict(NOPA) if 1 in ops else {}
+    extra = dict(tv=(am == 0))
+    if 1 in ops: extra.update(NOPA)
     extra.update(kw)
-    return Job(name, A, 'harness_aligned', defines=D, unwind=cap + 2, shims=SH, ir2c=MAP, timeout=timeout, tv=(am == 0), tv_vectors=1500, small=[0, 1, 2, 3, 4, 5, 7, 8, 9, 12, 15, 16],
+    return Job(name, A, 'harness_aligned', defines=D, unwind=cap + 2, shims=SH, ir2c=MAP, timeout=timeout, tv_vectors=1500, small=[0, 1, 2, 3, 4, 5, 7, 8, 9, 12, 15, 16],
                desc='AlignedFileAdaptor %s vs plain file, alignment %d, align_memory %d' % (' then '.join(OPN[o] for o in ops), al, am),
                bounds='file size 1..%d, offset < size, length 0..%d' % (fsz, rlen), **extra)
 
@@ -74,6 +75,7 @@ XUS = ['f__ZN6photon2fs5XFile5preadEPvml:0', 'f__ZN6photon2fs5XFile6pwriteEPKvml
 XMAP = ['--map', '^@_Znwm$=verif_c16_new', '--map', '^@_ZdlPv$=verif_c16_delete',
         '--stub', r'^@_ZN6photon2fs5IFile\d+p(read|write)v(2|_mutable|2_mutable)E', '--stub', r'^@_ZN7IStream\d+(read|write)v_mutableE']
 XTVL = ['-include', 'nolog.h', REPO + '/fs/virtual-file.cpp', REPO + '/common/iovector.cpp']     # native build: the real base-class methods
+TVU = [3, 2, 3, 2]      # translation validation for one unit size per composite kind (each costs a native g++ build)
 KN = ['fixed', 'fixedp2', 'var', 'stripe']
 KD = ['FixedSizeLinearFile<range_split>', 'FixedSizeLinearFile<range_split_power2>', 'VariableSizeLinearFile', 'StripeFile']
 
@@ -88,7 +90,7 @@ def xjob(kind, unit, nsub, ops, timeout):
         us += ['%s:%d' % (l, 8 * (nsub + 2) + 2) for l in ('verif_memcpy_n.0', 'verif_memmove_n.0', 'verif_memmove_n.1')]
     D = ['KIND=%d' % kind, 'UNIT=%d' % unit, 'NSUB=%d' % nsub, 'NOPS=%d' % len(ops)] + ['OP%d=%d' % (i + 1, o) for i, o in enumerate(ops)]
     return Job('x_%s_%s_u%d_n%d' % (KN[kind], '_'.join(OPN[o] for o in ops), unit, nsub), X, 'harness_xfile', defines=D, unwind=parts + 2, unwindset=us,
-               shims=SH + ['c16_vfile.c'], ir2c=XMAP, timeout=timeout, tv=True, tv_link=XTVL,
+               shims=SH + ['c16_vfile.c'], ir2c=XMAP, timeout=timeout, tv=(unit == TVU[kind]), tv_link=XTVL,
                desc='%s %s vs flat file, %s %d, %d sub-files' % (KD[kind], ' then '.join(OPN[o] for o in ops), 'sub-file sizes 1..' if kind == 2 else 'stripe' if kind == 3 else 'unit', unit, nsub),
                bounds='composite size %s%d, offset < size, length 0..%d' % ('<= ' if kind == 2 else '', tot, tot + 2))
 
@@ -103,7 +105,7 @@ def jobs(tier):
             for op in (0, 1):
                 J.append(ajob('al_%s_a%d_m%d' % (OPN[op], al, am), al, am, 16, 16, (op,), T))
     # the out-of-bounds intermediate pointer in AlignedFileAdaptor::pwrite, with the full check set (see META)
-    J.append(ajob('al_pwrite_ptrarith_ub', 4, 0, 16, 16, (1,), T, nochecks=False, cbmc=[], kf='C16-pwrite-oob-intermediate-pointer'))
+    J.append(ajob('al_pwrite_ptrarith_ub', 4, 0, 16, 8, (1,), T, nochecks=False, cbmc=[], tv=False, kf='C16-pwrite-oob-intermediate-pointer'))
     # ---- (b) composites, single operation
     XK = [(0, 2), (0, 3), (0, 4), (1, 2), (1, 4), (2, 3), (3, 2), (3, 4)]
     for kind, unit in XK:
